@@ -357,6 +357,10 @@ def replay(pid, path):
     problems = ORACLES[pid](c)
     d = diff_resp(c.real, c.mod)
     print(json.dumps({"oracle_problems": problems, "model_vs_engine": d, "observed": {"data": c.real["data"], "errors": c.real["errors"]}}, indent=1)[:4000])
+    if problems or d:
+        kf = match_known(fw.load_known(), pid, c, problems)
+        if kf:
+            print(f"KNOWN-FINDING: property={pid} " + (kf["line"].split(" ", 2)[2] if kf["line"].startswith("known:") else kf["line"])); return 0
     if problems:
         print(f"VIOLATION property={pid} replay={path}"); return 1
     if d:
